@@ -1,2 +1,90 @@
-(* Props/C11.v — the property theorems of C11 (placeholder while the proofs are built). *)
-From Verif Require Import Base Regex Prefilter.
+(* Props/C11.v — the property theorems of C11 and nothing else.
+   C11: SecRxPreFilter never changes what @rx matches or captures.
+   M w r i j: the regex r (Go's simplified AST) matches the bytes of w from offset i to j;
+   re_matches r w: regexp.MatchString; wf_re r: the decidable facts about Go's Unicode tables
+   carried by a serialised pattern (checked on every pattern of the correspondence run). *)
+From Verif Require Import Base Utf8 Regex RegexProofs Prefilter PrefilterProofs.
+
+(* the main theorem: when the prefilter closure answers "cannot match", the regex has no match *)
+Theorem C11_prefilter_sound : forall r w,
+  wf_re r = true -> prefilter r w = false -> ~ re_matches r w.
+Proof. exact prefilter_sound. Qed.
+Print Assumptions C11_prefilter_sound.
+
+(* the same without the restriction of match starts to decode boundaries *)
+Theorem C11_prefilter_sound_any_start : forall r w,
+  wf_re r = true -> prefilter r w = false -> forall i j, (i <= length w)%nat -> ~ M w r i j.
+Proof. exact prefilter_sound_M. Qed.
+Print Assumptions C11_prefilter_sound_any_start.
+
+(* minLen: every match is at least min_len r bytes long *)
+Theorem C11_minlen_sound : forall w r i j,
+  wf_re r = true -> M w r i j -> (i + min_len r <= j)%nat.
+Proof. exact min_len_sound. Qed.
+Print Assumptions C11_minlen_sound.
+
+(* extractLiterals: every allRequired literal / some anyRequired literal occurs inside every
+   matched segment (exactly, or ASCII-case-insensitively on ASCII input when any node has (?i)) *)
+Theorem C11_literals_sound : forall r w i j,
+  wf_re r = true -> (has_flag r = true -> is_ascii w = true) -> M w r i j ->
+  lits_hold (has_flag r) w i j (extract_literals r (has_flag r)).
+Proof. exact literals_sound. Qed.
+Print Assumptions C11_literals_sound.
+
+(* trie reconstruction only produces needles that occur in every match *)
+Theorem C11_trie_sound : forall ci w f l i j T,
+  mode_ok ci w (Cat f l) -> ML w l i j -> trie_reconstruct l ci = Some T -> Exists (occ_in ci w i j) T.
+Proof. exact trie_sound. Qed.
+Print Assumptions C11_trie_sound.
+
+(* the anchored tests: the literal after \A sits at offset 0, the literal before \z ends the input *)
+Theorem C11_anchor_prefix_sound : forall ci w r i j,
+  mode_ok ci w r -> M w r i j -> lit_after_begin r ci <> [] ->
+  i = 0%nat /\ seg_at ci w 0 (lit_after_begin r ci).
+Proof. exact lit_after_begin_sound. Qed.
+Print Assumptions C11_anchor_prefix_sound.
+
+Theorem C11_anchor_suffix_sound : forall ci w r i j,
+  mode_ok ci w r -> M w r i j -> (i <= length w)%nat -> lit_before_end r ci <> [] ->
+  j = length w /\ (length (lit_before_end r ci) <= length w)%nat
+  /\ seg_at ci w (length w - length (lit_before_end r ci)) (lit_before_end r ci).
+Proof. exact lit_before_end_sound. Qed.
+Print Assumptions C11_anchor_suffix_sound.
+
+(* the matchers never miss an occurrence: the Wu-Manber style scan with its uint8 shift table
+   (any number and length of non-empty needles), containsFoldASCII *)
+Theorem C11_indexed_matcher_sound : forall needles ci s p n,
+  In n needles -> (forall n', In n' needles -> n' <> []) -> seg_at ci s p n ->
+  im_match (new_indexed needles ci) s = true.
+Proof. exact im_match_complete. Qed.
+Print Assumptions C11_indexed_matcher_sound.
+
+Theorem C11_contains_fold_sound : forall s p n, seg_at true s p n -> contains_fold_ascii s n = true.
+Proof. exact contains_fold_ascii_of_seg. Qed.
+Print Assumptions C11_contains_fold_sound.
+
+(* the exact-match fast path decides exactly what the compiled pattern decides (newline-free input) *)
+Theorem C11_exact_path_sound : forall r0 r rs ci w,
+  wf_re r = true -> exact_rel r0 r = true -> extract_exact r0 = Some (rs, ci) -> memN 10 w = false ->
+  ((exists i j, (i <= length w)%nat /\ M w r i j) <-> exact_eq ci w rs = true).
+Proof. exact exact_path_sound. Qed.
+Print Assumptions C11_exact_path_sound.
+
+(* the property: for an engine that agrees with the semantics (reports a match iff there is one,
+   group 0 a matched segment, one group per capture node), rx.Evaluate gives the same result and
+   the same captured fields with the prefilter artefacts as without them *)
+Theorem C11_same_result_and_captures : forall r r0 engine,
+  wf_re r = true -> exact_rel r0 r = true ->
+  (forall w g, engine w = Some g ->
+     length g = S (num_caps r) /\
+     exists i j, In i (boundaries w) /\ M w r i j /\ nth_error g 0 = Some (Some (firstn (j - i) (skipn i w)))) ->
+  (forall w, re_matches r w -> engine w <> None) ->
+  forall capturing w,
+    evaluate engine (rx_compile true r r0) capturing w = evaluate engine (rx_compile false r r0) capturing w.
+Proof. exact same_result_and_captures. Qed.
+Print Assumptions C11_same_result_and_captures.
+
+(* the executable semantics that the correspondence compares with Go's engine IS the declarative one *)
+Theorem C11_exec_semantics_exact : forall r w, re_matchb r w = true <-> re_matches r w.
+Proof. exact re_matchb_exact. Qed.
+Print Assumptions C11_exec_semantics_exact.
